@@ -56,6 +56,8 @@ type FileSpec struct {
 	Dir  int    `json:"dir"`
 	Name string `json:"name"` // file name
 	Dir2 bool   `json:"is_dir,omitempty"`
+	// Sub: the file lies in this sub-directory of the search-path directory ("" = in the directory itself)
+	Sub string `json:"sub,omitempty"`
 }
 
 type Case struct {
@@ -70,6 +72,8 @@ type Case struct {
 	Want     string     `json:"want_module,omitempty"`
 	ViaImp   bool       `json:"via_import,omitempty"`
 	WantDate string     `json:"import_date,omitempty"`
+	// Recurse[d]: directory d is put on the search path as "d/...": d and everything below it is searched
+	Recurse []bool `json:"recursive_dirs,omitempty"`
 	// revsub: revisions of one module that each include the submodule "sub"
 	RevMods []RevMod `json:"revision_modules,omitempty"`
 	SubRevs []string `json:"submodule_revisions,omitempty"` // "" = a text without revision
@@ -332,19 +336,36 @@ var dateRE = func(s string) bool {
 	return true
 }
 
-// expectedFile: the first directory holding a candidate; name.yang, else the latest date.
+// searched: is the place where f lies searched when directory f.Dir is asked? Sub-directories only below a
+// search-path entry of the form dir/... .
+func (c Case) searched(f FileSpec) bool {
+	return f.Sub == "" || (f.Dir < len(c.Recurse) && c.Recurse[f.Dir])
+}
+
+// rel: the file's path below its search-path directory
+func (f FileSpec) rel() string {
+	if f.Sub == "" {
+		return f.Name
+	}
+	return f.Sub + "/" + f.Name
+}
+
+// expectedFile: the first directory holding a candidate; name.yang, else the latest date. (Below a dir/... entry the
+// generator keeps all candidates in one directory, so that which sub-directory is asked first does not matter.)
 func expectedFile(c Case, want string) (int, string) {
 	for d := 0; d < c.Dirs; d++ {
 		exact := ""
 		var dated []string
+		sub := map[string]string{}
 		for _, f := range c.Files {
-			if f.Dir != d || f.Dir2 {
+			if f.Dir != d || f.Dir2 || !c.searched(f) {
 				continue
 			}
 			if f.Name == want+".yang" {
-				exact = f.Name
+				exact = f.rel()
 			} else if strings.HasPrefix(f.Name, want+"@") && strings.HasSuffix(f.Name, ".yang") && dateRE(strings.TrimSuffix(strings.TrimPrefix(f.Name, want+"@"), ".yang")) {
 				dated = append(dated, f.Name)
+				sub[f.Name] = f.rel()
 			}
 		}
 		if exact != "" {
@@ -352,7 +373,7 @@ func expectedFile(c Case, want string) (int, string) {
 		}
 		if len(dated) > 0 {
 			sort.Strings(dated)
-			return d, dated[len(dated)-1]
+			return d, sub[dated[len(dated)-1]]
 		}
 	}
 	return -1, ""
@@ -372,7 +393,8 @@ func checkFiles(c Case, o *ev.Outcome) {
 	}
 	nearMiss := 0
 	for _, f := range c.Files {
-		p := filepath.Join(dirs[f.Dir], f.Name)
+		p := filepath.Join(dirs[f.Dir], filepath.FromSlash(f.rel()))
+		os.MkdirAll(filepath.Dir(p), 0o755)
 		if f.Dir2 {
 			os.MkdirAll(p, 0o755)
 			continue
@@ -387,7 +409,7 @@ func checkFiles(c Case, o *ev.Outcome) {
 		}
 		// every candidate augments a container of its own: a module that was fetched must be processed like one
 		// that was handed in
-		text := fmt.Sprintf("module %s { namespace \"urn:d%d/%s\"; prefix p;%s container box { } augment \"/p:box\" { leaf fetched-and-augmented { type string; } } }\n", c.Want, f.Dir, f.Name, rev)
+		text := fmt.Sprintf("module %s { namespace \"urn:d%d/%s\"; prefix p;%s container box { } augment \"/p:box\" { leaf fetched-and-augmented { type string; } } }\n", c.Want, f.Dir, f.rel(), rev)
 		os.WriteFile(p, []byte(text), 0o644)
 		if f.Name != c.Want+".yang" && !(strings.HasPrefix(f.Name, c.Want+"@") && strings.HasSuffix(f.Name, ".yang") && dateRE(strings.TrimSuffix(strings.TrimPrefix(f.Name, c.Want+"@"), ".yang"))) {
 			nearMiss++
@@ -399,8 +421,8 @@ func checkFiles(c Case, o *ev.Outcome) {
 		wantDir, wantFile = -1, ""
 		for d := 0; d < c.Dirs && wantDir < 0; d++ {
 			for _, f := range c.Files {
-				if f.Dir == d && !f.Dir2 && f.Name == c.Want+"@"+c.WantDate+".yang" {
-					wantDir, wantFile = d, f.Name
+				if f.Dir == d && !f.Dir2 && c.searched(f) && f.Name == c.Want+"@"+c.WantDate+".yang" {
+					wantDir, wantFile = d, f.rel()
 				}
 			}
 		}
@@ -418,7 +440,19 @@ func checkFiles(c Case, o *ev.Outcome) {
 	}
 	o.NonTrivial = len(c.Files) >= 2
 	ms := yang.NewModules()
-	ms.AddPath(dirs...)
+	for d, p := range dirs {
+		if d < len(c.Recurse) && c.Recurse[d] {
+			o.Class("recursive-search-path-entry")
+			p = filepath.Join(p, "...")
+		}
+		ms.AddPath(p)
+	}
+	for _, f := range c.Files {
+		if f.Sub != "" && !f.Dir2 && !c.searched(f) {
+			o.Class("files-below-a-plain-entry")
+			break
+		}
+	}
 	var loadErr error
 	ok := ev.Guard(o, "fetch", func() {
 		if c.ViaImp {
@@ -1018,6 +1052,21 @@ func genFiles(t *rapid.T) Case {
 			}
 		}
 	}
+	// a third of the cases: search-path entries of the form dir/... and files in sub-directories. Below a dir/...
+	// entry all true candidates lie in one place (the directory itself or one sub-directory, up to two levels
+	// down); below a plain entry, files in sub-directories are not candidates at all.
+	subs := []string{"", "s1", "s1/s2", "a0", "zz/y"}
+	home := make([]string, c.Dirs)
+	if rapid.IntRange(0, 2).Draw(t, "sub-directories") == 0 {
+		c.Recurse = make([]bool, c.Dirs)
+		for d := range c.Recurse {
+			c.Recurse[d] = rapid.Bool().Draw(t, "recursive-entry")
+			home[d] = rapid.SampledFrom(subs).Draw(t, "candidates-live-in")
+		}
+	}
+	isCand := func(n string) bool {
+		return n == w+".yang" || (strings.HasPrefix(n, w+"@") && strings.HasSuffix(n, ".yang") && dateRE(strings.TrimSuffix(strings.TrimPrefix(n, w+"@"), ".yang")))
+	}
 	n := rapid.IntRange(0, 7).Draw(t, "files")
 	seen := map[string]bool{}
 	for i := 0; i < n; i++ {
@@ -1030,7 +1079,15 @@ func genFiles(t *rapid.T) Case {
 		if rapid.IntRange(0, 11).Draw(t, "as-directory") == 0 {
 			f.Dir2 = true
 		}
-		k := fmt.Sprint(f.Dir, f.Name)
+		if c.Recurse != nil {
+			switch {
+			case c.Recurse[f.Dir] && isCand(f.Name) && !f.Dir2:
+				f.Sub = home[f.Dir]
+			default:
+				f.Sub = rapid.SampledFrom(subs).Draw(t, "sub-directory")
+			}
+		}
+		k := fmt.Sprint(f.Dir, f.rel())
 		if !seen[k] {
 			seen[k] = true
 			c.Files = append(c.Files, f)
@@ -1038,7 +1095,7 @@ func genFiles(t *rapid.T) Case {
 	}
 	if c.ViaImp && rapid.IntRange(0, 2).Draw(t, "dated-import") == 0 {
 		for _, f := range c.Files {
-			if !f.Dir2 && strings.HasPrefix(f.Name, w+"@") && strings.HasSuffix(f.Name, ".yang") && dateRE(strings.TrimSuffix(strings.TrimPrefix(f.Name, w+"@"), ".yang")) {
+			if !f.Dir2 && c.searched(f) && strings.HasPrefix(f.Name, w+"@") && strings.HasSuffix(f.Name, ".yang") && dateRE(strings.TrimSuffix(strings.TrimPrefix(f.Name, w+"@"), ".yang")) {
 				c.WantDate = strings.TrimSuffix(strings.TrimPrefix(f.Name, w+"@"), ".yang")
 			}
 		}
@@ -1379,7 +1436,7 @@ func TestCheck(t *testing.T) {
 		ID:    "C13",
 		Level: "exploration",
 		Rule: "five generators. (e) mixed: revisions 2018-2021 of lib each loaded, waiting as lib@DATE.yang in a search-path directory, or absent, optionally a text without revision; 1-3 importers (alpha, middle, omega) with or without revision-date using lib's grouping and typedef; three load orders, one Process. Oracle: the bare name denotes the latest revision held afterwards, undated imports denote it, dated imports denote their revision when it is held, and what an importer's uses and type bring comes from the module its import denotes. (d) revisions with submodules: 1-3 revisions of one module, each including the submodule sub with or without revision-date, 1-2 texts of sub (with a nested include of a second submodule in a third of the cases), six load orders. Oracle: the tree of every revision holds its own leaf, the leaf of exactly the submodule text its include denotes, and the nested submodule's leaf once. (a) revisions: 1-5 module headers with a name from {foo, bar} and 0-3 revision dates (texts with equal name and latest revision are identical), plus 0-3 importers with and without revision-date; every load permutation for up to 4 texts (24), 12 sampled for 5. Oracle: exactly one text per (name, latest revision) is accepted in every order, the bare key and undated imports denote the latest loaded revision, dated keys and dated imports the exact one. " +
-			"(b) files: 1-3 search-path directories (temporary, outside /repo and /verif) with up to 7 files from {name.yang, three name@DATE.yang (the wanted name is one of name, na.me, n.a-m_e, name.v1, na-me; for names with punctuation also files of modules that differ in that character only, with the latest dates), near misses: nameX@.., Xname@.., name@2020-1-01.yang, ...yang.bak, ...YANG, name-ext@.., name@DATEx.yang, name.yang.orig, nam.yang, name2.yang, name@.yang, name@20220101.yang; sometimes a directory of that name}; every file declares the wanted module with a namespace naming its own path; fetched by Read, by an undated import and by a dated import. Oracle: the module comes from the first directory holding a candidate, name.yang else the latest date (dated import: the exact file); with no candidate the fetch fails. " +
+			"(b) files: 1-3 search-path directories (temporary, outside /repo and /verif) with up to 7 files from {name.yang, three name@DATE.yang (the wanted name is one of name, na.me, n.a-m_e, name.v1, na-me; for names with punctuation also files of modules that differ in that character only, with the latest dates), near misses: nameX@.., Xname@.., name@2020-1-01.yang, ...yang.bak, ...YANG, name-ext@.., name@DATEx.yang, name.yang.orig, nam.yang, name2.yang, name@.yang, name@20220101.yang; sometimes a directory of that name}; in a third of the cases directories are put on the search path as dir/... (dir and everything below it is searched; all true candidates below such an entry lie in one place, the directory itself or a sub-directory up to two levels down) and files also lie in sub-directories of plain entries, where they are no candidates; every file declares the wanted module with a namespace naming its own path; fetched by Read, by an undated import and by a dated import. Oracle: the module comes from the first directory holding a candidate, name.yang else the latest date (dated import: the exact file); with no candidate the fetch fails. " +
 			"(c) split: a generated single module and a random partition of its body into 1-3 submodules (all definitions move, nodes stay or move; submodules include each other where they refer to each other, mutual includes allowed with the ignore-circular option). Oracle: tree, types, attributes and identity lists of the module equal those of the unsplit module. " +
 			"Non-trivial = (a) two texts sharing a name or a duplicate, (b) >= 2 files, (c) >= 1 submodule, (d) >= 2 module revisions, (e) >= 2 revisions and >= 2 importers; distinct by case",
 		Assumptions: []string{
